@@ -8,7 +8,7 @@ From Coq Require Import List NArith Bool.
 Import ListNotations.
 Require Import ZV.Skel ZV.gen.Skeleton ZV.tie.RefTie.
 Open Scope N_scope.
-Ltac tvm := timeout 60 (vm_compute; repeat split; reflexivity).
+Ltac tvm := timeout 240 (vm_compute; repeat split; reflexivity).
 
 Definition cancels (s : sk) : bool :=
   match s with
@@ -51,5 +51,5 @@ Lemma tie_poll_discipline :
   (1 <= polls sk_mergeToWriter)%nat /\ (1 <= polls sk_mergeStoredAndRemap)%nat /\
   (3 <= polls sk_mergeAndPersistInvertedSection)%nat /\ (2 <= polls sk_mergeAndPersistSynonymSection)%nat /\
   (1 <= polls sk_faissVectorIndexSection_Merge)%nat /\ (2 <= polls sk_vectorIndexOpaque_mergeAndWriteVectorIndexes)%nat.
-Proof. timeout 60 (vm_compute; repeat split; try reflexivity; repeat constructor). Qed.
+Proof. timeout 240 (vm_compute; repeat split; try reflexivity; repeat constructor). Qed.
 Print Assumptions tie_poll_discipline.
